@@ -47,7 +47,7 @@ def op_kind(opline):
     p = opline.split()
     if not p:
         return ('', '')
-    if p[0] in ('tx', 'query') and len(p) > 1:
+    if p[0] in ('tx', 'query', 'sim') and len(p) > 1:
         return (p[0], p[1])
     return (p[0], '')
 
@@ -58,6 +58,8 @@ def compare(ops, impl, model):
         kind, sub = op_kind(ops[i])
         if kind in ('', '#'):
             continue
+        if kind == 'sim':
+            kind = 'tx'  # a simulated (discarded) transaction reports the same observation line as a delivered one
         a = canon_obs(kind, impl[i])
         b = canon_obs(kind, model[i])
         if a != b:
